@@ -60,11 +60,14 @@ CHECKS = {
         note="Address classification by line.fset and AddrGroup.__contains__ (user __eq__) are bounded only. " + TB),
     "C08": dict(
         level="other", design_ref="DESIGN.md 5/C08",
-        technique="contracts on Port._items_to_ports/_ports_to_items discharged by own VC generator (z3/cvc5); codec and setter text path by bounded contract checking",
+        technique="contracts on Port._items_to_ports/_ports_to_items, the text path of the setters (numeric operands) and the range-string encoder, discharged by own VC "
+                  "generator (z3/cvc5); decoder and named operands by bounded contract checking",
         text="Proof obligations (unbounded, all operands): Port._items_to_ports yields exactly the Cisco port set of each operator in ascending order; "
-             "Port._ports_to_items is its inverse on every operator-shaped list (meaning, text, index safety; the neq removal loop by invariant). "
-             "Bounded stand-in (not counted as proved): range-string codec on all subsets of three 10-element universes with an independent decoder, "
-             "and the setters' text path on boundary operands with all view histories of length <= 2.",
+             "Port._ports_to_items is its inverse on every operator-shaped list (meaning, text, index safety; the neq removal loop by invariant); "
+             "Port._line__items_to_ints / Port.line.fset / items, ports and sport setters on numeric operands (refusals as the grammar requires; own value assigned back keeps "
+             "operator, operands and port set); helpers.ports_to_string encodes exactly the given set. Over an abstract text model (tokens as ghost lists). "
+             "Bounded stand-in (not counted as proved): range-string decoder and codec round trip on all subsets of three 10-element universes with an independent decoder, "
+             "and the setters natively (named ports included) on boundary operands with all view histories of length <= 2.",
         note="Assumes pyvc's models of range/list/comprehension/list.remove (remove lemma discharged each run); operands valid as produced by the line setter; "
              "string/split/int text path and set iteration order are outside the deductive part (bounded). " + TB),
     "C09": dict(
@@ -130,16 +133,18 @@ CHECKS = {
         note="Bounded only (regex section parser). One defect found and fixed (bindings)."),
     "C14": dict(
         level="other", design_ref="DESIGN.md 5/C14",
-        technique="bounded contract checking of address.collapse / address_ag.collapse with exact trie/cube algebra",
-        text="All lists of <= 3/4 networks from the 31 prefixes of a /28 plus /0 and both /1 (any order, duplicates, nesting, adjacency), both classes, both platforms: "
+        technique="contract on address_base.collapse_ (work-list loop invariant: covered set unchanged) discharged by own VC generator; bounded contract checking of "
+                  "address.collapse / address_ag.collapse with exact trie/cube algebra",
+        text="Proof obligations: collapse_ refuses non-contiguous wildcards, its work-list loop keeps the covered address set on all four paths, one result object per finished "
+             "network, sorted() permutes (assumed: ipnets() ghost value, copy() returns a new object, prefix setter; termination not proved). Bounded: all lists of <= 3/4 networks from the 31 prefixes of a /28 plus /0 and both /1 (any order, duplicates, nesting, adjacency), both classes, both platforms: "
              "covered set equal, never longer, sorted, notes empty, class/platform kept; non-contiguous wildcards and foreign types refused with TypeError.",
-        note="collapse_ work-list loop not under a deductive contract; termination observed only."),
+        note="Networks are abstract values in the list-level VCs; engine lemmas engine.net.* tie them to bits and are cross-checked against CPython ipaddress. Termination observed only."),
     "C16": dict(
         level="other", design_ref="DESIGN.md 5/C16",
         technique="bounded contract checking of copy()/data() (equality, disjoint reachable mutable state by id, mutate-then-observe) and of identifier/note stability",
         text="13 object kinds x 2 platforms x {copy, Class(**data())}: equal text and data, no shared mutable state except notes, changing either side never changes the "
-             "other; 9 in-place transformations keep uuid and note of all items and nested address objects.",
-        note="Not applicable to deduction: aliasing through **data()/__dict__.update needs an ownership logic the verifier does not have. Known finding: nested Port/Protocol/Option uuids."),
+             "other; 18 in-place transformations (also from a grouped ACL) keep uuid and note of all items, groups and nested objects.",
+        note="Not applicable to deduction: aliasing through **data()/__dict__.update needs an ownership logic the verifier does not have. Three defects found here were fixed in /repo."),
     "C17": dict(
         level="other", design_ref="DESIGN.md 5/C17",
         technique="bounded model-based contract checking: per-operation contract View' == Model_op(View) from all states reached by short operation sequences",
@@ -148,16 +153,20 @@ CHECKS = {
         note="Whole-history quantifier: only the per-operation base case is checkable; no deductive obligation."),
     "C18": dict(
         level="other", design_ref="DESIGN.md 5/C18",
-        technique="bounded contract checking of range_ports / range_protocols against a reference parse of the request",
-        text="Comma lists of <= 3/4 elements (numbers, a-b ranges, empty elements, full ranges) x side x template operator x ports-per-line 1..4 x both policies x platforms: "
+        technique="contract on functions._split_range_for_ace (list of lists, loop invariant) discharged by own VC generator; bounded contract checking of range_ports / "
+                  "range_protocols against a reference parse of the request",
+        text="Proof obligations (range/eq policy): every chunk non-empty, request tokens only, every non-empty request token in a chunk, range tokens alone, ports-per-line "
+             "limit. Bounded: comma lists of <= 3/4 elements (numbers, a-b ranges, empty elements, full ranges) x side x template operator x ports-per-line 1..4 x both policies x platforms: "
              "valid lines, only the generated field differs, limit respected, policy respected, union == request; refusals only where no valid line exists.",
-        note="No deductive obligation yet (_split_range_for_ace works on text tokens and external helpers). One defect found and fixed (full-range requests)."),
+        note="The port_range=False branch (netports / vhelpers) and the ACE construction are bounded only. One defect found and fixed (full-range requests)."),
     "C20": dict(
         level="other", design_ref="DESIGN.md 5/C20",
         technique="safety/termination obligations of the text kernels under contract (own VC generator) + bounded exception-class / time-limit / re-acceptance checking on generated text",
         text="Discharged: helpers.is_line_for_acl terminates (length decreases) without recursion and without index errors. Bounded (labelled): 14 entry points x 2 platforms "
-             "on token soups, truncated / permuted / corrupted valid texts, empty and very long inputs: returns or raises ValueError/TypeError within 5 s; returned text is accepted again.",
-        note="Known findings: Acl('') and Remark('') (empty default constructors) render text they reject. Regex run time only by wall clock."),
+             "on token soups, truncated / permuted / corrupted valid texts, empty and very long inputs: and configuration-structured texts (indentation width/character/depth, comment lines, the parser's own string constants as lines): returns or raises "
+             "ValueError/TypeError within 30 CPU seconds; returned text is accepted again; indentation does not change what acls()/addrgroups() return.",
+        note="Known findings: Acl(''), Remark(''), standard entries with address-like options, a line equal to the parser's reserved key, unbounded recursion depth of "
+             "ConfigParser._get_indented_dic, IOS group member with mask 0. Regex run time only by CPU-time limit."),
 }
 
 NA_REASON = "check not built yet (framework under construction; see DESIGN.md section 7 build order)"
